@@ -298,8 +298,8 @@ impl SrvNode {
                 let decoded = self.c.record(ctx, packets, &|_| Want::Reaction, &input_msids);
                 for m in decoded.iter() {
                     // remember stream ids handed out by createStream results
-                    if m.type_id == 20 {
-                        if let Ok(crate::refs::msg::Body::Command { name, args, .. }) = crate::refs::msg::decode(m) {
+                    if m.type_id == 20 || m.type_id == 17 {
+                        if let Ok(crate::refs::msg::Body::Command { name, args, .. }) = crate::refs::msg::decode_lenient(m) {
                             if name == "_result" {
                                 if let Some(crate::refs::amf0::AV::Num(n)) = args.first() {
                                     self.c.known_sids.push(*n as u32);
@@ -366,8 +366,8 @@ impl CliNode {
         let r = self.c.mem.call(ctx, seg.len(), || sess.handle_input(seg))?;
         let in_msgs = self.c.tap_input(seg);
         for (m, _) in in_msgs.iter() {
-            if m.type_id == 20 {
-                if let Ok(crate::refs::msg::Body::Command { name, args, .. }) = crate::refs::msg::decode(m) {
+            if m.type_id == 20 || m.type_id == 17 {
+                if let Ok(crate::refs::msg::Body::Command { name, args, .. }) = crate::refs::msg::decode_lenient(m) {
                     if name == "_result" {
                         if let Some(crate::refs::amf0::AV::Num(n)) = args.first() {
                             self.c.known_sids.push(*n as u32);
